@@ -29,6 +29,7 @@ import (
 	"github.com/google/osv-scalibr/inventory"
 	"github.com/google/osv-scalibr/plugin"
 	"github.com/google/osv-scalibr/purl"
+	packageurl "github.com/package-url/packageurl-go"
 )
 
 const modPrefix = "github.com/google/osv-scalibr/"
@@ -363,6 +364,63 @@ type Subst struct {
 	Label   string
 	Name    string // "" = keep
 	Version string // "" = keep
+	// PurlEdit != "": edit every *purl.PackageURL held in an exported top-level field of the
+	// metadata (packages of the SBOM extractors keep the PURL they read there): "no-version",
+	// "no-namespace", "no-qualifiers", "no-subpath", "name-only".
+	PurlEdit string
+}
+
+// PurlFieldSubstitutions: an SBOM may give any subset of the optional PURL components; the SBOM
+// extractors store what they parsed. Variants the purl library itself rejects (purl-spec rules of
+// the type) are not produced.
+func PurlFieldSubstitutions() []Subst {
+	var out []Subst
+	for _, e := range []string{"no-version", "no-namespace", "no-qualifiers", "no-subpath", "name-only"} {
+		out = append(out, Subst{Label: "purlfield:" + e, PurlEdit: e})
+	}
+	return out
+}
+
+var purlPtrType = reflect.TypeOf((*purl.PackageURL)(nil))
+
+// editPurlFields edits (copies of) the PURLs held by the metadata copy m; reports whether any changed.
+func editPurlFields(m any, edit string) bool {
+	v := reflect.ValueOf(m)
+	if v.Kind() != reflect.Pointer || v.IsNil() || v.Elem().Kind() != reflect.Struct {
+		return false
+	}
+	changed := false
+	e := v.Elem()
+	for i := 0; i < e.NumField(); i++ {
+		f := e.Field(i)
+		if f.Type() != purlPtrType || !f.CanSet() || f.IsNil() {
+			continue
+		}
+		u := *(f.Interface().(*purl.PackageURL))
+		u.Qualifiers = append(purl.Qualifiers(nil), u.Qualifiers...)
+		before := u.String()
+		switch edit {
+		case "no-version":
+			u.Version = ""
+		case "no-namespace":
+			u.Namespace = ""
+		case "no-qualifiers":
+			u.Qualifiers = nil
+		case "no-subpath":
+			u.Subpath = ""
+		case "name-only":
+			u.Version, u.Namespace, u.Qualifiers, u.Subpath = "", "", nil, ""
+		}
+		if u.String() == before {
+			continue
+		}
+		if _, err := packageurl.FromString(u.String()); err != nil {
+			continue // not a PURL an SBOM extractor could have stored
+		}
+		f.Set(reflect.ValueOf(&u))
+		changed = true
+	}
+	return changed
 }
 
 var charClasses = []struct{ l, s string }{
@@ -398,7 +456,8 @@ func Substitutions() []Subst {
 	return out
 }
 
-// Apply returns a copy of base with the substitution applied. The extractor saw
+// Apply returns a copy of base with the substitution applied (nil if a PurlEdit substitution
+// does not apply to the package). The extractor saw
 // the name and version in the input file, so every exported top-level string
 // field of the metadata that holds exactly the old name (version) is replaced
 // too; everything else of the metadata is kept.
@@ -413,6 +472,9 @@ func Apply(base *Item, s Subst) *Item {
 	}
 	p.Locations = append([]string(nil), base.Pkg.Locations...)
 	p.Metadata = substMeta(base.Pkg.Metadata, oldN, p.Name, oldV, p.Version)
+	if s.PurlEdit != "" && !editPurlFields(p.Metadata, s.PurlEdit) {
+		return nil // not applicable to this package
+	}
 	return &Item{Ex: base.Ex, Fixture: base.Fixture, Env: base.Env, Required: base.Required, Index: base.Index, Pkg: &p, Synth: s.Label, Base: base}
 }
 
